@@ -144,39 +144,23 @@ package lua
 //@ ensures  arrid(tb.array) == old(arrid(tb.array))
 //@ modifies tb.array, tb.array[*]
 
-//@ trusted (*LTable).RawSetH [C09 C18]
-//@ assume RawSetH/RawSetString touch only the hash part of the table (to be replaced by a verified contract under C09)
-//@ noraise
-//@ ensures  arrid(tb.keys) == old(arrid(tb.keys)) || fresh(tb.keys)
-//@ modifies tb.dict, tb.strdict, tb.keys, tb.k2i, tb.keys[*], tb.dict{*}, tb.strdict{*}, tb.k2i{*}
-
 //@ func (*LTable).RawSetInt [C09 C18]
-//@ requires Inv_arr(tb) && value != nil
+//@ requires Inv_arr(tb) && Inv_hash(tb) && value != nil
 //@ noraise
-//@ ensures  Inv_arr(tb)
+//@ ensures  Inv_arr(tb) && Inv_hash(tb)
 //@ ensures  "array-key": 1 <= key && key < old(MaxArrayIndex) ==> len(tb.array) == old(max(len(tb.array), key)) && tb.array[key-1] == value && (forall k int :: 0 <= k && k < old(len(tb.array)) && k != key-1 ==> tb.array[k] == old(tb.array[k])) && (forall k int :: old(len(tb.array)) <= k && k < key-1 ==> tb.array[k] == LNil)
 //@ ensures  "hash-key": !(1 <= key && key < old(MaxArrayIndex)) ==> len(tb.array) == old(len(tb.array)) && (forall k int :: 0 <= k && k < len(tb.array) ==> tb.array[k] == old(tb.array[k]))
 //@ ensures  arrid(tb.array) == old(arrid(tb.array)) || fresh(tb.array)
 //@ ensures  arrid(tb.keys) == old(arrid(tb.keys)) || fresh(tb.keys)
 //@ modifies tb.array, tb.array[*], tb.dict, tb.strdict, tb.keys, tb.k2i, tb.keys[*], tb.dict{*}, tb.strdict{*}, tb.k2i{*}
-//@ loop 1 invariant 0 <= i && i <= index - alen && Inv_arr(tb) && len(tb.array) == alen + i && alen == old(len(tb.array)) && index == key - 1 && index > alen && arrid(tb.array) != 0 && (arrid(tb.array) == old(arrid(tb.array)) || fresh(tb.array))
+//@ loop 1 invariant 0 <= i && i <= index - alen && Inv_arr(tb) && Inv_hash(tb) && len(tb.array) == alen + i && alen == old(len(tb.array)) && index == key - 1 && index > alen && arrid(tb.array) != 0 && (arrid(tb.array) == old(arrid(tb.array)) || fresh(tb.array))
 //@ loop 1 invariant forall k int :: 0 <= k && k < alen ==> tb.array[k] == old(tb.array[k])
 //@ loop 1 invariant forall k int :: alen <= k && k < alen + i ==> tb.array[k] == LNil
 
-//@ trusted (*LTable).RawSet [C09 C18]
-//@ assume (*LTable).RawSet: assumed here, verified under C09 when the hash part is under contract
-//@ requires Inv_arr(tb) && value != nil
-//@ noraise
-//@ ensures  Inv_arr(tb)
-//@ ensures  !isNum(key) || (exists n int :: n <= 0 && key == mkNum(i2f(n))) ==> len(tb.array) == old(len(tb.array)) && (forall k int :: 0 <= k && k < len(tb.array) ==> tb.array[k] == old(tb.array[k]))
-//@ ensures  arrid(tb.array) == old(arrid(tb.array)) || fresh(tb.array)
-//@ ensures  arrid(tb.keys) == old(arrid(tb.keys)) || fresh(tb.keys)
-//@ modifies tb.array, tb.array[*], tb.dict, tb.strdict, tb.keys, tb.k2i, tb.keys[*], tb.dict{*}, tb.strdict{*}, tb.k2i{*}
-
 //@ func (*LTable).Insert [C09 C18]
-//@ requires Inv_arr(tb) && value != nil
+//@ requires Inv_arr(tb) && Inv_hash(tb) && value != nil && MaxArrayIndex <= 4611686018427387904
 //@ noraise
-//@ ensures  Inv_arr(tb)
+//@ ensures  Inv_arr(tb) && Inv_hash(tb)
 //@ ensures  "shift": 1 <= i && i <= old(len(tb.array)) ==> len(tb.array) == old(len(tb.array)) + 1 && tb.array[i-1] == value && (forall k int :: 0 <= k && k < i-1 ==> tb.array[k] == old(tb.array[k])) && (forall k int :: i <= k && k < len(tb.array) ==> tb.array[k] == old(tb.array[k-1]))
 //@ ensures  "beyond": i > old(len(tb.array)) && i < old(MaxArrayIndex) ==> len(tb.array) == i && tb.array[i-1] == value && (forall k int :: 0 <= k && k < old(len(tb.array)) ==> tb.array[k] == old(tb.array[k])) && (forall k int :: old(len(tb.array)) <= k && k < i-1 ==> tb.array[k] == LNil)
 //@ ensures  "nonpositive": i <= 0 ==> len(tb.array) == old(len(tb.array)) && (forall k int :: 0 <= k && k < len(tb.array) ==> tb.array[k] == old(tb.array[k]))
@@ -191,14 +175,14 @@ package lua
 //@ define argTab(L *LState, n int) *LTable = tab(arg(L, n))
 
 //@ func tableGetN [C18]
-//@ requires Inv_gfn(L) && isTab(arg(L, 1)) && Inv_arr(argTab(L, 1))
+//@ requires Inv_gfn(L) && isTab(arg(L, 1)) && Inv_arr(argTab(L, 1)) && Inv_hash(argTab(L, 1))
 //@ raises when top(L) + 1 > cap(L.reg.array)
 //@ ensures  result == 1 && top(L) == old(top(L)) + 1 && argsKept(L)
 //@ ensures  forall n int :: old(isListLen(argTab(L, 1), n)) ==> pushed(L, 0) == mkNum(i2f(n))
 //@ modifies L.reg.array, L.reg.top, L.reg.array[*]
 
 //@ func tableMaxN [C18]
-//@ requires Inv_gfn(L) && isTab(arg(L, 1)) && Inv_arr(argTab(L, 1))
+//@ requires Inv_gfn(L) && isTab(arg(L, 1)) && Inv_arr(argTab(L, 1)) && Inv_hash(argTab(L, 1))
 //@ raises when top(L) + 1 > cap(L.reg.array)
 //@ ensures  result == 1 && top(L) == old(top(L)) + 1 && argsKept(L)
 //@ ensures  forall n int :: old(isListLen(argTab(L, 1), n)) ==> pushed(L, 0) == mkNum(i2f(n))
@@ -209,22 +193,22 @@ package lua
 //@ define removePos(L *LState, n int) int = ite(nargs(L) == 1, n, f2i(num(arg(L, 2))))
 
 //@ func tableRemove [C18]
-//@ requires Inv_gfn(L) && isTab(arg(L, 1)) && Inv_arr(argTab(L, 1)) && (nargs(L) == 1 || isNum(arg(L, 2))) && nargs(L) >= 1
-//@ requires arrid(argTab(L, 1).array) != arrid(L.reg.array)
+//@ requires Inv_gfn(L) && isTab(arg(L, 1)) && Inv_arr(argTab(L, 1)) && Inv_hash(argTab(L, 1)) && (nargs(L) == 1 || isNum(arg(L, 2))) && nargs(L) >= 1
+//@ requires arrid(argTab(L, 1).array) != arrid(L.reg.array) && arrid(argTab(L, 1).keys) != arrid(L.reg.array)
 //@ raises when top(L) + 1 > cap(L.reg.array)
-//@ ensures  result == 1 && top(L) == old(top(L)) + 1 && argsKept(L) && Inv_arr(argTab(L, 1))
+//@ ensures  result == 1 && top(L) == old(top(L)) + 1 && argsKept(L) && Inv_arr(argTab(L, 1)) && Inv_hash(argTab(L, 1))
 //@ ensures  "removed": forall n int :: old(isListLen(argTab(L, 1), n) && 1 <= removePos(L, n) && removePos(L, n) <= n) ==> pushed(L, 0) == old(argTab(L, 1).array[removePos(L, n) - 1]) && len(old(argTab(L, 1)).array) == old(len(argTab(L, 1).array)) - 1 && (forall k int :: 0 <= k && k < old(removePos(L, n)) - 1 ==> old(argTab(L, 1)).array[k] == old(argTab(L, 1).array[k])) && (forall k int :: old(removePos(L, n)) - 1 <= k && k < len(old(argTab(L, 1)).array) ==> old(argTab(L, 1)).array[k] == old(argTab(L, 1).array[k+1]))
 //@ modifies L.reg.array, L.reg.top, L.reg.array[*], type LTable.array, elems(LValue)
 
 // table.insert(t, [pos,] value): "Inserts element value at position pos in table, shifting up other elements to
 // open space, if necessary. The default value for pos is n+1, where n is the length of the table."
 //@ func tableInsert [C18]
-//@ requires Inv_gfn(L) && isTab(arg(L, 1)) && Inv_arr(argTab(L, 1)) && nargs(L) >= 2 && arg(L, 2) != nil && arg(L, 3) != nil
+//@ requires Inv_gfn(L) && isTab(arg(L, 1)) && Inv_arr(argTab(L, 1)) && Inv_hash(argTab(L, 1)) && nargs(L) >= 2 && arg(L, 2) != nil && arg(L, 3) != nil
 //@ requires nargs(L) >= 3 ==> isNum(arg(L, 2))
-//@ requires len(argTab(L, 1).array) + 1 < MaxArrayIndex
+//@ requires len(argTab(L, 1).array) + 1 < MaxArrayIndex && MaxArrayIndex <= 4611686018427387904
 //@ requires arrid(argTab(L, 1).array) != arrid(L.reg.array) && arrid(argTab(L, 1).keys) != arrid(L.reg.array)
 //@ noraise
-//@ ensures  result == 0 && top(L) == old(top(L)) && Inv_arr(argTab(L, 1))
+//@ ensures  result == 0 && top(L) == old(top(L)) && Inv_arr(argTab(L, 1)) && Inv_hash(argTab(L, 1))
 //@ ensures  "append": old(nargs(L) == 2 && arg(L, 2) != LNil) ==> forall n int :: old(isListLen(argTab(L, 1), n)) ==> isListLen(argTab(L, 1), n+1) && argTab(L, 1).array[n] == old(arg(L, 2)) && (forall k int :: 0 <= k && k < n ==> argTab(L, 1).array[k] == old(argTab(L, 1).array[k]))
 //@ ensures  "append-nil": old(nargs(L) == 2 && arg(L, 2) == LNil) ==> len(argTab(L, 1).array) == old(len(argTab(L, 1).array)) && (forall k int :: 0 <= k && k < len(argTab(L, 1).array) ==> argTab(L, 1).array[k] == old(argTab(L, 1).array[k]))
 //@ ensures  "insert": old(nargs(L) >= 3) ==> forall n int :: old(isListLen(argTab(L, 1), n) && 1 <= f2i(num(arg(L, 2))) && f2i(num(arg(L, 2))) <= n + 1) ==> argTab(L, 1).array[old(f2i(num(arg(L, 2)))) - 1] == old(arg(L, 3)) && (forall k int :: 0 <= k && k < old(f2i(num(arg(L, 2)))) - 1 ==> argTab(L, 1).array[k] == old(argTab(L, 1).array[k])) && (forall k int :: old(f2i(num(arg(L, 2)))) <= k && k <= n ==> argTab(L, 1).array[k] == old(argTab(L, 1).array[k-1])) && (old(arg(L, 3)) != LNil ==> isListLen(argTab(L, 1), n+1))
@@ -237,7 +221,7 @@ package lua
 //@ modifies everything
 
 //@ func tableSort [C18]
-//@ requires Inv_gfn(L) && isTab(arg(L, 1)) && Inv_arr(argTab(L, 1))
+//@ requires Inv_gfn(L) && isTab(arg(L, 1)) && Inv_arr(argTab(L, 1)) && Inv_hash(argTab(L, 1))
 //@ assert@"sort.Sort(sorter)" forall n int :: old(isListLen(argTab(L, 1), n)) ==> len(sorter.Values) == n && arrid(sorter.Values) == old(arrid(argTab(L, 1).array)) && offset(sorter.Values) == 0
 //@ ensures  result == 0
 //@ modifies everything
@@ -259,7 +243,7 @@ package lua
 //@ define unpackTo(L *LState, n int) int = ite(isNil(arg(L, 3)), n, f2i(num(arg(L, 3))))
 
 //@ func baseUnpack [C02 C18]
-//@ requires Inv_gfn(L) && isTab(arg(L, 1)) && Inv_arr(argTab(L, 1)) && (isNil(arg(L, 2)) || isNum(arg(L, 2))) && (isNil(arg(L, 3)) || isNum(arg(L, 3)))
+//@ requires Inv_gfn(L) && isTab(arg(L, 1)) && Inv_arr(argTab(L, 1)) && Inv_hash(argTab(L, 1)) && (isNil(arg(L, 2)) || isNum(arg(L, 2))) && (isNil(arg(L, 3)) || isNum(arg(L, 3)))
 //@ requires arrid(argTab(L, 1).array) != arrid(L.reg.array)
 //@ ensures  argsKept(L) && top(L) == old(top(L)) + result
 //@ ensures  "count": forall n int :: old(isListLen(argTab(L, 1), n)) ==> result == old(max(unpackTo(L, n) - unpackFrom(L) + 1, 0))
